@@ -478,6 +478,8 @@ check(slot_t *sl, IMB_JOB *j)
                         cmp_n = 4; /* CRC half undefined when PLI <= 4 */
                 if (!skip && memcmp(it->tag + cmp_from, sl->exp_tag + cmp_from, (size_t) cmp_n))
                         viol(sl, "tag-mismatch", "tag differs from the specification", 0);
+                if (A->family == F_PON && sl->s.hash_len <= 4 && (it->tag[4] | it->tag[5] | it->tag[6] | it->tag[7]))
+                        viol(sl, "tag-mismatch", "PON: no FCS in the payload but the CRC half of the tag is not zero", 0);
                 if (!skip && !(A->family == F_PON && sl->s.hash_len <= 4))
                         for (int q = 0; q < 16; q++)
                                 if (it->tag[-1 - q] != CANARY || it->tag[tl + q] != CANARY) {
